@@ -2,7 +2,7 @@
 """Ad-hoc mutation probe: copy /repo to a scratch dir, replace OLD by NEW
 in FILE (exactly one occurrence), run the given checks against the copy.
 
-usage: mut.py FILE OLD NEW ID[,ID...] [--tests] [--tier quick]
+usage: mut.py FILE OLD NEW [FILE OLD NEW ...] ID[,ID...] [--tests]
 Evidence files written by these runs are restored afterwards.
 """
 import os
@@ -17,19 +17,21 @@ VERIF = os.path.dirname(os.path.dirname(os.path.abspath(__file__)))
 def main():
     args = [a for a in sys.argv[1:] if not a.startswith('--')]
     flags = [a for a in sys.argv[1:] if a.startswith('--')]
-    f, old, new, ids = args[:4]
-    old = old.encode().decode('unicode_escape')
-    new = new.encode().decode('unicode_escape')
+    ids = args[-1]
+    triples = [args[i:i + 3] for i in range(0, len(args) - 1, 3)]
     d = tempfile.mkdtemp(prefix='mut_')
     try:
         subprocess.run(['rsync', '-a', '--exclude', '.git', '/repo/', d + '/'],
                        check=True)
-        p = os.path.join(d, f)
-        s = open(p).read()
-        if s.count(old) != 1:
-            print('OLD occurs', s.count(old), 'times')
-            return 2
-        open(p, 'w').write(s.replace(old, new))
+        for f, old, new in triples:
+            old = old.encode().decode('unicode_escape')
+            new = new.encode().decode('unicode_escape')
+            p = os.path.join(d, f)
+            s = open(p).read()
+            if s.count(old) != 1:
+                print('OLD occurs', s.count(old), 'times:', old[:60])
+                return 2
+            open(p, 'w').write(s.replace(old, new))
         if '--tests' in flags:
             r = subprocess.run(
                 ['/venv/bin/python', '-m', 'pytest', '-q', '-p',
